@@ -44,7 +44,7 @@ def bounds(tier):
 
 def chunks(tier):
     out = [("S", d) for d in range(1, 10)] + [("S", "x")]
-    out += [("U", i) for i in range(8)] + [("R",), ("Q",), ("P",), ("PS",), ("T", 0), ("T", 1)]
+    out += [("U", i) for i in range(8)] + [("R",), ("Q",), ("P",), ("PS",), ("T", 0), ("T", 1), ("T", 2), ("T", 3)]
     return out
 
 
@@ -341,13 +341,24 @@ def check_table(res, mants, exps, form):
     res.evaluations += 3
     res.nontrivial += 1
     names = {k: Substance.from_formula(k).html_name for k in TABLE_KEYS}
+    row_keys = list(TABLE_KEYS)
     try:
-        cont = dict(zip(TABLE_KEYS, vals)) if form == "dict" else list(vals)
-        kw = {} if form == "dict" else dict(substances=__import__("collections").OrderedDict((k, Substance.from_formula(k)) for k in TABLE_KEYS))
+        OD = __import__("collections").OrderedDict
+        cont = dict(zip(TABLE_KEYS, vals)) if form.startswith("dict") else list(vals)
+        if form == "dict":
+            kw = {}
+        elif form == "dict+substances-reversed":  # rows follow `substances`; every value is looked up by its key
+            row_keys = TABLE_KEYS[::-1]
+            kw = dict(substances=OD((k, Substance.from_formula(k)) for k in row_keys))
+        elif form == "dict+substances-subset":  # the mapping holds more keys than the table shows
+            row_keys = [TABLE_KEYS[2], TABLE_KEYS[0]]
+            kw = dict(substances=OD((k, Substance.from_formula(k)) for k in row_keys))
+        else:
+            kw = dict(substances=OD((k, Substance.from_formula(k)) for k in TABLE_KEYS))
         tab = as_per_substance_html_table(cont, header="c", **kw)
         first = tab._repr_html_()
         second = tab._repr_html_()
-        if form == "dict":
+        if form.startswith("dict"):
             cont[TABLE_KEYS[0]] = 123.0
         else:
             cont[0] = 123.0
@@ -358,10 +369,11 @@ def check_table(res, mants, exps, form):
         return
     bad = None
     cells = re.findall(r"<tr><td>(.*?)</td>\s*<td>(.*?)</td></tr>", first, re.S)
-    if [c[0] for c in cells] != [names[k] for k in TABLE_KEYS]:
+    by_key = dict(zip(TABLE_KEYS, vals))
+    if [c[0] for c in cells] != [names[k] for k in row_keys]:
         bad = ("substances", [c[0] for c in cells])
     else:
-        for (nm, txt), x in zip(cells, vals):
+        for (nm, txt), x in zip(cells, [by_key[k] for k in row_keys]):
             try:
                 sig, ex = parse_sci("html", txt)
                 val = (sig if sig is not None else Decimal(1)).scaleb(ex)
@@ -434,7 +446,7 @@ def run_chunk(chunk, tier):
             res.symbols[uname] += 1
         res.sample(dict(layer="Q", x="3.14159e-7", unit="m/s"))
     elif chunk[0] == "T":
-        form = ("dict", "list")[chunk[1]]
+        form = ("dict", "list", "dict+substances-reversed", "dict+substances-subset")[chunk[1]]
         mants = ["1.00", "3.14159", "9.99996", "2.5"]
         for e0 in b["exponents"][::3]:
             for rot in range(4):
